@@ -43,6 +43,32 @@ pub struct BitMachine {
     write: Vec<Frame>,
     /// Acceptable source type
     source_ty: Arc<Final>,
+    /// Verification hook: high-water mark of `next_frame_start` (cells in use)
+    #[cfg(feature = "verif-hooks")]
+    verif_hw_cells: usize,
+    /// Verification hook: high-water mark of `read.len() + write.len()` (frames in use)
+    #[cfg(feature = "verif-hooks")]
+    verif_hw_frames: usize,
+}
+
+#[cfg(feature = "verif-hooks")]
+impl BitMachine {
+    /// Verification hook: (max cells in use, max frames in use) observed so far.
+    pub fn verif_high_water(&self) -> (usize, usize) {
+        (self.verif_hw_cells, self.verif_hw_frames)
+    }
+
+    /// Verification hook: size of the data buffer in bits, and capacity of the frame stacks.
+    pub fn verif_capacity(&self) -> (usize, usize) {
+        (self.data.len() * 8, self.read.capacity())
+    }
+
+    /// Verification hook: pre-fill the machine's memory with the given byte.
+    pub fn verif_fill(&mut self, byte: u8) {
+        for b in self.data.iter_mut() {
+            *b = byte;
+        }
+    }
 }
 
 impl BitMachine {
@@ -57,6 +83,10 @@ impl BitMachine {
             read: Vec::with_capacity(program.bounds().extra_frames + analysis::IO_EXTRA_FRAMES),
             write: Vec::with_capacity(program.bounds().extra_frames + analysis::IO_EXTRA_FRAMES),
             source_ty: program.arrow().source.clone(),
+            #[cfg(feature = "verif-hooks")]
+            verif_hw_cells: 0,
+            #[cfg(feature = "verif-hooks")]
+            verif_hw_frames: 0,
         })
     }
 
@@ -89,6 +119,11 @@ impl BitMachine {
 
         self.write.push(Frame::new(self.next_frame_start, len));
         self.next_frame_start += len;
+        #[cfg(feature = "verif-hooks")]
+        {
+            self.verif_hw_cells = self.verif_hw_cells.max(self.next_frame_start);
+            self.verif_hw_frames = self.verif_hw_frames.max(self.write.len() + self.read.len());
+        }
     }
 
     /// Move the active write frame to the read frame stack
